@@ -163,10 +163,24 @@ func stepG4(x rvalG4) (rvalG4, bool) {
 		}
 		a, ok := v.X.(*ssa.Alloc)
 		if !ok {
+			// inside a closure: a captured variable of the enclosing function that
+			// is assigned exactly once overall (a parameter the loop body reads)
+			if fv, isFV := v.X.(*ssa.FreeVar); isFV {
+				if ca := cellOfAddrG4(fv); ca != nil {
+					if vals := cellStoresG4(ca); len(vals) == 1 {
+						return rvalG4{vals[0], x.env}, true
+					}
+				}
+			}
 			return x, false
 		}
 		sv := singleStore(a)
 		if sv == nil {
+			return x, false
+		}
+		// a variable captured by closures may also be assigned in them
+		// (singleStore only sees the stores of the declaring function)
+		if capturedCellG4(a) && len(cellStoresG4(a)) != 1 {
 			return x, false
 		}
 		return rvalG4{sv, x.env}, true
@@ -221,6 +235,23 @@ func altsG4(x rvalG4) []rvalG4 {
 						if v.Index < len(r.Results) {
 							walk(rvalG4{retVal(r, v.Index), &envG4{h, c, x.env}}, d+1)
 						}
+					}
+					return
+				}
+			}
+		case *ssa.UnOp:
+			// a load of a variable that lives in a memory cell because closures
+			// capture it (the body of a range-over-func loop assigns it): any
+			// value stored to it, here or in those closures. The flow facts
+			// this ignores are checked by the caller on cellLoadsSeenG4
+			// (prop_gen_c42_rangefunc.go).
+			if a := cellOfLoadG4(v); a != nil {
+				if vals := cellStoresG4(a); len(vals) > 0 {
+					if cellLoadsSeenG4 != nil {
+						cellLoadsSeenG4[v] = a
+					}
+					for _, sv := range vals {
+						walk(rvalG4{sv, x.env}, d+1)
 					}
 					return
 				}
